@@ -340,3 +340,7 @@ where
 }
 
 impl<I: Iterator> FindUniqueMultiple for I where I::Item: Clone {}
+
+#[cfg(kani)]
+#[path = "/verif/harness/id.rs"]
+pub(crate) mod verif_harness;
